@@ -730,6 +730,12 @@ class _Builder:
         if self.owner is None or not isinstance(t, tuple) or depth > 3:
             return t
         t = tuple(self.inline_terms(x, depth) if isinstance(x, tuple) else x for x in t)
+        if op(t) == "call" and (op(t[1]) == "gconst" or (op(t[1]) == "call" and op(t[1][1]) == "ext" and t[1][1][1] in ("operator.attrgetter", "operator.itemgetter"))):
+            # a callable handed to a helper as an argument (an attrgetter constant, ..) and called there: after the
+            # helper is read through, the call is the call of that constant
+            t2 = self.low.norm_call(t)
+            if t2 != t:
+                return self.inline_terms(t2, depth + 1)
         if op(t) == "call" and op(t[1]) == "lambda" and len(t[1][1]) == len(t[2]) and not t[3] and not any(op(a) == "star" for a in t[2]):
             from .terms import substitute
 
@@ -753,6 +759,38 @@ class _Builder:
 
                         body = self._freshen(cs.paths[0].out[1])
                         return self.inline_terms(substitute(body, {("param", k): v for k, v in bound.items()}), depth + 1)
+                    if len(cs.paths) > 1 and all(p_.out is not None and p_.out[0] == "return" and all(ev.kind in ("bind", "guard") for ev in p_.events) for p_ in cs.paths):
+                        # several paths told apart by tests that the LITERAL arguments of this call decide
+                        # (`_normalize(s, True)`): the one path those arguments select
+                        from .terms import substitute
+
+                        mp = {("param", k): v for k, v in bound.items()}
+                        live = []
+                        for p_ in cs.paths:
+                            ok = True
+                            for ev in p_.events:
+                                if ev.kind != "guard":
+                                    continue
+                                g_ = substitute(ev.a, mp) if isinstance(ev.a, tuple) else ev.a
+                                while op(g_) in ("truth",):
+                                    g_ = g_[1]
+                                neg = False
+                                while op(g_) == "not":
+                                    g_, neg = g_[1], not neg
+                                if op(g_) != "const":
+                                    ok = None
+                                    break
+                                if (bool(g_[1]) != neg) != ev.b:
+                                    ok = False
+                                    break
+                            if ok is None:
+                                live = None
+                                break
+                            if ok:
+                                live.append(p_)
+                        if live is not None and len(live) == 1:
+                            body = self._freshen(live[0].out[1])
+                            return self.inline_terms(substitute(body, mp), depth + 1)
         return t
 
     def _freshen(self, t):
